@@ -88,33 +88,59 @@ impl<'a> ResolveScope<'a> {
         &self,
         name: &str,
     ) -> Option<&'a ValueReference<<Asn<Unresolved> as Target>::ValueReferenceType>> {
+        self.value_reference_guarded(name, &mut vec![self.model as *const _])
+    }
+
+    /// `visited` are the modules already asked: imports that lead back to one of them without
+    /// reaching a definition do not define the value
+    fn value_reference_guarded(
+        &self,
+        name: &str,
+        visited: &mut Vec<*const Model<Asn<Unresolved>>>,
+    ) -> Option<&'a ValueReference<<Asn<Unresolved> as Target>::ValueReferenceType>> {
         self.model
             .value_references
             .iter()
             .find(|vr| vr.name.eq(name))
             .or_else(|| {
                 self.model_with_imported_item(name).and_then(|model| {
+                    if visited.contains(&(model as *const _)) {
+                        return None;
+                    }
+                    visited.push(model as *const _);
                     ResolveScope {
                         model,
                         scope: self.scope,
                     }
-                    .value_reference(name)
+                    .value_reference_guarded(name, visited)
                 })
             })
     }
 
     fn definition(&self, name: &str) -> Option<&'a Definition<Asn<Unresolved>>> {
+        self.definition_guarded(name, &mut vec![self.model as *const _])
+    }
+
+    fn definition_guarded(
+        &self,
+        name: &str,
+        visited: &mut Vec<*const Model<Asn<Unresolved>>>,
+    ) -> Option<&'a Definition<Asn<Unresolved>>> {
         self.model
             .definitions
             .iter()
             .find(|def| def.name().eq(name))
             .or_else(|| {
                 self.model_with_imported_item(name).and_then(|model| {
+                    if visited.contains(&(model as *const _)) {
+                        return None;
+                    }
+                    visited.push(model as *const _);
                     ResolveScope {
                         model,
                         scope: self.scope,
                     }
-                    .definition(name)
+                    .definition_guarded(name, visited)
                 })
             })
     }
